@@ -182,11 +182,13 @@ def harnesses(tier):
         for k in ["f", "i", "T", "b"]:
             hs.append(Group("aggregate", [k], 3))
         hs.append(Group("aggregate", ["i", "b"], 3))
+        hs.append(Group("count", ["td"], 3))
+        hs.append(Group("aggregate", ["us"], 2))
         for mode in ("count", "split", "modify", "helper"):
             hs.append(Group(mode, ["f"], 3))
             hs.append(Group(mode, ["T"], 2))
     else:
-        kinds = ["f", "i", "T", "b", "D", "U", "O"]
+        kinds = ["f", "i", "T", "b", "D", "U", "O", "td", "us"]
         for k in kinds:
             for mode in ("aggregate", "count", "split", "modify", "helper"):
                 hs.append(Group(mode, [k], 4))
